@@ -954,13 +954,14 @@ theorem boolToNat_decide (p : Prop) [Decidable p] : boolToNat (decide p) = if p 
 /-- sqrtrem.c:236-240: adding `S` (possibly `S = B`, stored as 0) and then `S − 1` with carries. -/
 theorem sqrtrem2AddBack_spec (S rp : Nat) (cc : Int) (V : Nat) (hrp : rp < B) (hS1 : 1 ≤ S) (hS2 : S ≤ B)
     (hval : cc * (B : Int) + (rp : Int) + (2 * S - 1 : Nat) = (V : Int)) :
-    ∃ rp' cc', sqrtrem2AddBack (S % B) rp cc = (S - 1, rp', cc') ∧ (cc' * (B : Int) + (rp' : Int)).toNat = V := by
+    ∃ rp' cc', sqrtrem2AddBack (S % B) rp cc = (S - 1, rp', cc') ∧ cc' * (B : Int) + (rp' : Int) = (V : Int) ∧
+      rp' < B := by
   have hB := B_eq
   unfold sqrtrem2AddBack
   dsimp only
   have hw : wsub (S % B) 1 = S - 1 := by unfold wsub; rw [B_eq] at *; omega
   rw [hw, boolToNat_decide, boolToNat_decide]
-  refine ⟨_, _, rfl, ?_⟩
+  refine ⟨_, _, rfl, ?_, Nat.mod_lt _ B_pos⟩
   · 
     have : (cc + ((if S % B ≠ 0 then (if rp + S % B ≥ B then 1 else 0) else 1 : Nat) : Int)
         + ((if (if S % B ≠ 0 then (rp + S % B) % B else rp) + (S - 1) ≥ B then 1 else 0 : Nat) : Int)) * (B : Int)
@@ -981,7 +982,7 @@ theorem sqrtrem2AddBack_spec (S rp : Nat) (cc : Int) (V : Nat) (hrp : rp < B) (h
         by_cases h2 : rp + (S - 1) ≥ 18446744073709551616
         · rw [if_pos h2]; omega
         · rw [if_neg h2]; omega
-    rw [this, Int.toNat_natCast]
+    exact this
 
 
 /-- sqrtrem.c:232-241: subtract `q²` (and `qhl·B`) from the two-limb remainder `T = cch·B + rp`, and
@@ -990,8 +991,9 @@ theorem sqrtrem2Fix_spec (S cch rp qq qh T QQ : Nat) (hrp : rp < B) (hqq : qq < 
     (hS2 : S ≤ B) (hT : cch * B + rp = T) (hQQ : qq + qh * B = QQ) (hA : QQ ≤ T → S < B)
     (hC : T < QQ → QQ ≤ T + (2 * S - 1)) :
     ∃ sp rp' cc', sqrtrem2Fix (S % B) cch rp qq qh = (sp, rp', cc') ∧
-      (QQ ≤ T → sp = S ∧ (cc' * (B : Int) + (rp' : Int)).toNat = T - QQ) ∧
-      (T < QQ → sp = S - 1 ∧ (cc' * (B : Int) + (rp' : Int)).toNat = T + (2 * S - 1) - QQ) := by
+      (QQ ≤ T → sp = S ∧ cc' * (B : Int) + (rp' : Int) = ((T - QQ : Nat) : Int)) ∧
+      (T < QQ → sp = S - 1 ∧ cc' * (B : Int) + (rp' : Int) = ((T + (2 * S - 1) - QQ : Nat) : Int)) ∧
+      rp' < B := by
   have hB := B_eq
   unfold sqrtrem2Fix
   dsimp only
@@ -1013,9 +1015,9 @@ theorem sqrtrem2Fix_spec (S cch rp qq qh T QQ : Nat) (hrp : rp < B) (hqq : qq < 
       omega
     rw [if_pos hc]
     have h2 := hC hneg
-    obtain ⟨rp', cc', e, v⟩ := sqrtrem2AddBack_spec S rp1 cc0 (T + (2 * S - 1) - QQ) hrp1 hS1 hS2
+    obtain ⟨rp', cc', e, v, vlt⟩ := sqrtrem2AddBack_spec S rp1 cc0 (T + (2 * S - 1) - QQ) hrp1 hS1 hS2
       (by push_cast [Nat.cast_sub h2]; omega)
-    exact ⟨_, _, _, e, fun h => absurd hneg (Nat.not_lt.mpr h), fun _ => ⟨rfl, v⟩⟩
+    exact ⟨_, _, _, e, fun h => absurd hneg (Nat.not_lt.mpr h), fun _ => ⟨rfl, v⟩, vlt⟩
   · have hle := Nat.le_of_not_lt hneg
     have hc : ¬ cc0 < 0 := by
       intro hc
@@ -1023,22 +1025,22 @@ theorem sqrtrem2Fix_spec (S cch rp qq qh T QQ : Nat) (hrp : rp < B) (hqq : qq < 
         Int.mul_le_mul_of_nonneg_right (by omega) (by rw [hB]; norm_num)
       omega
     rw [if_neg hc]
-    refine ⟨_, _, _, rfl, fun _ => ⟨Nat.mod_eq_of_lt (hA hle), ?_⟩, fun h => absurd h hneg⟩
+    refine ⟨_, _, _, rfl, fun _ => ⟨Nat.mod_eq_of_lt (hA hle), ?_⟩, fun h => absurd h hneg, hrp1⟩
     have : cc0 * (B : Int) + (rp1 : Int) = ((T - QQ : Nat) : Int) := by
       rw [hval, Nat.cast_sub hle]
-    rw [this, Int.toNat_natCast]
+    exact this
 
 
 theorem splitT (u a : Nat) : u / 4294967296 * 18446744073709551616 + (u * 4294967296 % 18446744073709551616 + a)
     = u * 4294967296 + a := by omega
 
 /-- mpn_sqrtrem2 after the subtraction loop: `np1 = s² + r`, `r = qhl·s + r'`, `r' < s`. -/
-theorem sqrtrem2Tail_spec (np0 s r r' qhl : Nat) (hnp0 : np0 < B) (hs1 : 2147483648 ≤ s)
+theorem sqrtrem2Tail_specI (np0 s r r' qhl : Nat) (hnp0 : np0 < B) (hs1 : 2147483648 ≤ s)
     (hs2 : s < 4294967296) (hr : r ≤ 2 * s) (hql : qhl ≤ 2) (hr' : r = qhl * s + r') (hr's : r' < s)
     (h2 : qhl = 2 → r' = 0) :
     ∃ sp rp cc, sqrtrem2Tail np0 s r' qhl = (sp, rp, cc) ∧
       sp * sp + (cc * (B : Int) + (rp : Int)).toNat = (s * s + r) * B + np0 ∧
-      (cc * (B : Int) + (rp : Int)).toNat ≤ 2 * sp := by
+      (cc * (B : Int) + (rp : Int)).toNat ≤ 2 * sp ∧ (0 : Int) ≤ cc * (B : Int) + (rp : Int) ∧ rp < B := by
   have hB := B_eq
   have hs3 : 0 < 2 * s := by omega
   obtain ⟨q0, u, hdm, hu, hq⟩ : ∃ q u, 2 * s * q + u = r' * 4294967296 + np0 / 4294967296 ∧ u < 2 * s ∧
@@ -1107,7 +1109,7 @@ theorem sqrtrem2Tail_spec (np0 s r r' qhl : Nat) (hnp0 : np0 < B) (hs1 : 2147483
   dsimp only
   rw [hqb, hqh, e1, e3, hq, e4, e5, e6, hmask, e8, e9, Nat.shiftRight_eq_div_pow]
   simp only [Nat.reducePow]
-  obtain ⟨sp, rp, cc, efix, fA, fC⟩ := sqrtrem2Fix_spec (s * 4294967296 + Q) (u / 4294967296)
+  obtain ⟨sp, rp, cc, efix, fA, fC, frp⟩ := sqrtrem2Fix_spec (s * 4294967296 + Q) (u / 4294967296)
     (u * 4294967296 % B + np0 % 4294967296) (ql * ql) qh (u * 4294967296 + np0 % 4294967296) (Q * Q)
     (by rw [hB]; omega) hqlql (by omega) (by rw [hB]; omega) (by rw [hB]; exact splitT _ _) hQQ
     (by
@@ -1126,10 +1128,19 @@ theorem sqrtrem2Tail_spec (np0 s r r' qhl : Nat) (hnp0 : np0 < B) (hs1 : 2147483
   by_cases hneg : u * 4294967296 + np0 % 4294967296 < Q * Q
   · obtain ⟨c1, c2, c3, c4⟩ := hC hneg
     obtain ⟨f1, f2⟩ := fC hneg
-    rw [f1, f2]; exact ⟨c3, c4⟩
+    rw [f1, f2, Int.toNat_natCast]; exact ⟨c3, c4, Int.natCast_nonneg _, frp⟩
   · obtain ⟨c1, c2⟩ := hA (Nat.le_of_not_lt hneg)
     obtain ⟨f1, f2⟩ := fA (Nat.le_of_not_lt hneg)
-    rw [f1, f2]; exact ⟨c1, c2⟩
+    rw [f1, f2, Int.toNat_natCast]; exact ⟨c1, c2, Int.natCast_nonneg _, frp⟩
+
+theorem sqrtrem2Tail_spec (np0 s r r' qhl : Nat) (hnp0 : np0 < B) (hs1 : 2147483648 ≤ s)
+    (hs2 : s < 4294967296) (hr : r ≤ 2 * s) (hql : qhl ≤ 2) (hr' : r = qhl * s + r') (hr's : r' < s)
+    (h2 : qhl = 2 → r' = 0) :
+    ∃ sp rp cc, sqrtrem2Tail np0 s r' qhl = (sp, rp, cc) ∧
+      sp * sp + (cc * (B : Int) + (rp : Int)).toNat = (s * s + r) * B + np0 ∧
+      (cc * (B : Int) + (rp : Int)).toNat ≤ 2 * sp := by
+  obtain ⟨sp, rp, cc, e, p1, p2, -⟩ := sqrtrem2Tail_specI np0 s r r' qhl hnp0 hs1 hs2 hr hql hr' hr's h2
+  exact ⟨sp, rp, cc, e, p1, p2⟩
 
 
 theorem sq_bounds32 (s r N : Nat) (h : s * s + r = N) (hr : r ≤ 2 * s) (h1 : 4611686018427387904 ≤ N)
@@ -1161,6 +1172,25 @@ theorem sqrtrem2_ex (np0 np1 : Nat) (h0 : np0 < B) (h1 : B / 4 ≤ np1) (h2 : np
   rw [eSub]
   dsimp only
   obtain ⟨sp, rp, cc, e, p1, p2⟩ := sqrtrem2Tail_spec np0 s r r' qhl h0 b1 b2 g2 q1 q2 q3 q4
+  rw [g1] at p1
+  exact ⟨sp, rp, cc, e, p1, p2⟩
+
+/-- the same with the sign of the two-limb remainder: `cc·B + rp ≥ 0` as an integer (so `cc ≥ 0`). -/
+theorem sqrtrem2_exI (np0 np1 : Nat) (h0 : np0 < B) (h1 : B / 4 ≤ np1) (h2 : np1 < B) :
+    ∃ sp rp cc, sqrtrem2 np0 np1 = (sp, rp, cc) ∧
+      sp * sp + (cc * (B : Int) + (rp : Int)).toNat = np1 * B + np0 ∧
+      (cc * (B : Int) + (rp : Int)).toNat ≤ 2 * sp ∧ (0 : Int) ≤ cc * (B : Int) + (rp : Int) ∧ rp < B := by
+  have hB := B_eq
+  obtain ⟨g1, g2⟩ := sqrtrem1_sq np1 h1 h2
+  unfold sqrtrem2
+  dsimp only
+  generalize (sqrtrem1 np1).1 = s at *
+  generalize (sqrtrem1 np1).2 = r at *
+  obtain ⟨b1, b2⟩ := sq_bounds32 s r np1 g1 g2 (by rw [hB] at h1; omega) (by rw [hB] at h2; exact h2)
+  obtain ⟨qhl, r', eSub, q1, q2, q3, q4⟩ := sqrtrem2Sub_spec s r (by omega) g2 b2
+  rw [eSub]
+  dsimp only
+  obtain ⟨sp, rp, cc, e, p1, p2⟩ := sqrtrem2Tail_specI np0 s r r' qhl h0 b1 b2 g2 q1 q2 q3 q4
   rw [g1] at p1
   exact ⟨sp, rp, cc, e, p1, p2⟩
 
@@ -1398,15 +1428,21 @@ theorem odd_divisor_of_not_pow2P (n : Nat) (hn : n ≠ 0) (h : pow2P n = false) 
   · exact ⟨m, by omega, hm, ⟨2 ^ k, by rw [e, Nat.mul_comm]⟩⟩
 
 
-/-- `exact = mpz_root (q, u2, nth)` under the contract of mpn_rootrem. -/
-theorem rootExact_spec (hrr : RootremSpec) (a nth : Nat) (ha : 0 < a) (hn : 1 ≤ nth) :
+/-- the contract of mpn_rootrem at one operand/index pair. -/
+def RootremAt (a k : Nat) : Prop := ∀ w,
+  (rootrem a (limbCount a) k w).1 = iroot k a ∧
+  ((rootrem a (limbCount a) k w).2 = 0 ↔ (iroot k a) ^ k = a) ∧
+  (w = true → (rootrem a (limbCount a) k w).2 = a - (iroot k a) ^ k)
+
+/-- `exact = mpz_root (q, u2, nth)` under the contract of mpn_rootrem at this operand and index. -/
+theorem rootExact_spec (a nth : Nat) (hrr : 2 ≤ nth → RootremAt a nth) (ha : 0 < a) (hn : 1 ≤ nth) :
     rootExact a nth = (iroot nth a, decide ((iroot nth a) ^ nth = a)) := by
   unfold rootExact
   rw [if_neg (by omega)]
   by_cases h1 : nth = 1
   · subst h1; simp [iroot_one]
   · rw [if_neg h1]
-    obtain ⟨r1, r2, -⟩ := hrr a nth false ha (by omega)
+    obtain ⟨r1, r2, -⟩ := hrr (by omega) false
     generalize rootrem a (limbCount a) nth false = res at *
     obtain ⟨r, m⟩ := res
     simp only at r1 r2 ⊢
@@ -1484,13 +1520,14 @@ theorem isPP_conclude (u : Int) (y t m n2 : Nat) (hm : 2 ≤ m) (hdvd : m ∣ n2
   refine isPP_of_mag u (y ^ c * t) m hm hodd ?_
   rw [h, mul_pow, ← pow_mul, Nat.mul_comm c m]
 
-theorem rootExact_true (hrr : RootremSpec) (a m : Nat) (ha : 0 < a) (hm : 1 ≤ m)
+theorem rootExact_true (a m : Nat) (hrr : 2 ≤ m → RootremAt a m) (ha : 0 < a) (hm : 1 ≤ m)
     (h : (rootExact a m).2 = true) : a = (iroot m a) ^ m := by
-  rw [rootExact_spec hrr a m ha hm] at h
+  rw [rootExact_spec a m hrr ha hm] at h
   have h' : iroot m a ^ m = a := by simpa using h
   exact h'.symm
 
-theorem ppFactor_sound (hrr : RootremSpec) (u : Int) (hu : u ≠ 0) : ∀ (ps : List Nat) (a n2 : Nat),
+theorem ppFactor_sound (u : Int) (hrr : ∀ a k, 0 < a → 2 ≤ k → a ∣ u.natAbs → RootremAt a k) (hu : u ≠ 0) :
+    ∀ (ps : List Nat) (a n2 : Nat),
     (∃ y, u.natAbs = y ^ n2 * a) →
     match ppFactor (decide (u < 0)) ps a n2 with
     | .inl b => b = true → IsPP u
@@ -1553,19 +1590,20 @@ theorem ppFactor_sound (hrr : RootremSpec) (u : Int) (hu : u ≠ 0) : ∀ (ps : 
                 intro hb
                 obtain ⟨n1, n2'⟩ := ppN2prime_sound _ a' g hb
                 obtain ⟨f1, f2⟩ := isprime_facts g h6
-                have hr := rootExact_true hrr a' g ha' (by omega) n2'
+                have hr := rootExact_true a' g (fun h => hrr a' g ha' h ⟨_, by rw [hinv', Nat.mul_comm]⟩) ha' (by omega) n2'
                 refine isPP_conclude u (y ^ c1 * p ^ c2) (iroot g a') g g f1 (dvd_refl g) ?_ (by rw [hinv', ← hr])
                 intro hneg
                 exact f2 (fun h2 => n1 ⟨h2, by simpa using hneg⟩)
               · rw [if_neg h6]
-                exact ppFactor_sound hrr u hu ps a' g ⟨_, hinv'⟩
+                exact ppFactor_sound u hrr hu ps a' g ⟨_, hinv'⟩
     · rw [if_neg h1]
-      exact ppFactor_sound hrr u hu ps a n2 hinv
+      exact ppFactor_sound u hrr hu ps a n2 hinv
 
 
 /-- mpz_perfect_power_p never answers "yes" on a number that is not a perfect power (given the contract
     of mpn_rootrem for the exactness flags). -/
-theorem perfect_power_sound (hrr : RootremSpec) (u : Int) (h : mpzPerfectPowerP u = true) : IsPP u := by
+theorem perfect_power_sound_at (u : Int) (hrr : ∀ a k, 0 < a → 2 ≤ k → a ∣ u.natAbs → RootremAt a k)
+    (h : mpzPerfectPowerP u = true) : IsPP u := by
   unfold mpzPerfectPowerP at h
   by_cases h0 : u = 0
   · subst h0; exact ⟨0, 2, by omega, by norm_num⟩
@@ -1589,12 +1627,12 @@ theorem perfect_power_sound (hrr : RootremSpec) (u : Int) (h : mpzPerfectPowerP 
         · rw [if_pos h3] at h
           obtain ⟨n1, n2'⟩ := ppN2prime_sound _ a2 n2 h
           obtain ⟨f1, f2⟩ := isprime_facts n2 h3
-          have hr := rootExact_true hrr a2 n2 ha2 (by omega) n2'
+          have hr := rootExact_true a2 n2 (fun h => hrr a2 n2 ha2 h ⟨_, by rw [hsc, Nat.mul_comm]⟩) ha2 (by omega) n2'
           refine isPP_conclude u 2 (iroot n2 a2) n2 n2 f1 (dvd_refl _) ?_ (by rw [hsc, ← hr])
           intro hneg
           exact f2 (fun hh => n1 ⟨hh, by simpa using hneg⟩)
         · rw [if_neg h3] at h
-          have key := ppFactor_sound hrr u h0 (perfpowPrimes.drop 1) a2 n2 ⟨2, hsc⟩
+          have key := ppFactor_sound u hrr h0 (perfpowPrimes.drop 1) a2 n2 ⟨2, hsc⟩
           generalize ppFactor (decide (u < 0)) (perfpowPrimes.drop 1) a2 n2 = res at *
           cases res with
           | inl b => exact key h
@@ -1610,7 +1648,7 @@ theorem perfect_power_sound (hrr : RootremSpec) (u : Int) (h : mpzPerfectPowerP 
             · rw [if_pos h4] at h
               obtain ⟨m, m1, m2, -, m4⟩ := ppRoots_sound a3 none _ _ h
               obtain ⟨f1, f2⟩ := isprime_facts m m2
-              have hr := rootExact_true hrr a3 m ha3 (by omega) m4
+              have hr := rootExact_true a3 m (fun h => hrr a3 m ha3 h ⟨_, by rw [hy, Nat.mul_comm]⟩) ha3 (by omega) m4
               refine isPP_conclude u y (iroot m a3) m n3 f1 (by rw [h4]; exact dvd_zero m) ?_ (by rw [hy, ← hr])
               intro hneg
               have : decide (u < 0) = true := by simpa using hneg
@@ -1619,7 +1657,7 @@ theorem perfect_power_sound (hrr : RootremSpec) (u : Int) (h : mpzPerfectPowerP 
             · rw [if_neg h4] at h
               obtain ⟨m, m1, m2, m3, m4⟩ := ppRoots_sound a3 (some n3) _ _ h
               obtain ⟨f1, f2⟩ := isprime_facts m m2
-              have hr := rootExact_true hrr a3 m ha3 (by omega) m4
+              have hr := rootExact_true a3 m (fun h => hrr a3 m ha3 h ⟨_, by rw [hy, Nat.mul_comm]⟩) ha3 (by omega) m4
               refine isPP_conclude u y (iroot m a3) m n3 f1 (Nat.dvd_of_mod_eq_zero (m3 n3 rfl)) ?_
                 (by rw [hy, ← hr])
               intro hneg
@@ -1629,6 +1667,10 @@ theorem perfect_power_sound (hrr : RootremSpec) (u : Int) (h : mpzPerfectPowerP 
 
 
 
+
+/-- the same under the global contract (old form). -/
+theorem perfect_power_sound (hrr : RootremSpec) (u : Int) (h : mpzPerfectPowerP u = true) : IsPP u :=
+  perfect_power_sound_at u (fun a k ha hk _ w => hrr a k w ha hk) h
 
 /-! ### mpn_perfect_square_p: the normalising final test -/
 
@@ -1662,11 +1704,6 @@ theorem perfectSquareFinal_iff (up : List Nat) (hl : Limbs up) :
 
 /-! ### mpz_root & co with a local contract for mpn_rootrem; the root-is-1 exit -/
 
-/-- the contract of mpn_rootrem at one operand/index pair. -/
-def RootremAt (a k : Nat) : Prop := ∀ w,
-  (rootrem a (limbCount a) k w).1 = iroot k a ∧
-  ((rootrem a (limbCount a) k w).2 = 0 ↔ (iroot k a) ^ k = a) ∧
-  (w = true → (rootrem a (limbCount a) k w).2 = a - (iroot k a) ^ k)
 
 theorem mpzRootCore_ok_at (u : Int) (n : Nat) (w : Bool) (hloc : u ≠ 0 → 2 ≤ n → RootremAt u.natAbs n)
     (h1 : ¬(u < 0 ∧ n % 2 = 0)) (h2 : n ≠ 0) :
